@@ -33,6 +33,7 @@ RULE += ' Round 8: save_spikes_subset_waveforms(max_n_channels > 12) between tem
 RULE += ' Round 9: one template seven orders of magnitude larger than the others.'
 RULE += ' Round 11: datasets shipping only the inverse whitening matrix.'
 RULE += ' Round 12: the caller writes into model.wm of an unwhitened dataset before the requests.'
+RULE += ' Round 13: a constant non-zero stored column in sparse templates.'
 EXHAUSTIVE = {'quick': False, 'thorough': False}
 FLOORS = {'quick': {'evaluations': 15000, 'distinct_nontrivial': 8000},
           'thorough': {'evaluations': 80000, 'distinct_nontrivial': 30000}}
